@@ -20,7 +20,7 @@ NA = {
 
 CHECKS = {
  "C09": dict(engine="gensim", category="exploration", ref="4.4",
-   technique="deterministic simulation: goverter CLI as a node with seam-controlled map iteration order, simulated disk and environment; seeded search over order plans, pattern/cwd/location variants and edit/corrupt/crash/regenerate histories; refinement against the clean-tree identity-order reference",
+   technique="deterministic simulation: goverter CLI as a node with seam-controlled map iteration order, goroutine order (inline/deferred), wall clock/pid, process environment and the go command's file-age (2 s module-index) regime, on a simulated disk; seeded search over order plans, pattern/cwd/location variants and edit/corrupt/crash/regenerate histories; refinement against the clean-tree identity-order reference",
    text="Seeded exploration, not a proof: every fault-free generation in every explored history (scenario corpus, parametric multi-defect/tie templates, combined scenarios) must equal - in exit status, normalised diagnostic and produced bytes - the node's own run in canonical map order on a pristine copy of the same inputs. Map order is perturbed per range site (systematic per-site reverse + seeded permutations), which turns 1-in-8 native flakes into first-plan hits and names the culpable range statement.",
    note="Trusted: the seam rewrite (validated each run against the unmodified binary), x/tools packages.Load and the go list child (real, uncontrolled; measured stable), canonical %#v key order. Premise: prior outputs are absent or keep their two header lines (torn-header files are user sources to the go tool)."),
  "C15": dict(engine="gensim", category="exploration", ref="4.5",
